@@ -2,10 +2,12 @@
 # Build the framework from files on disk only (offline).
 set -e
 cd "$(dirname "$0")/.."
+V=$PWD
+REPO=${VERIF_REPO:-/repo}
 export GOFLAGS=-mod=mod GOPROXY=off GOSUMDB=off GOTOOLCHAIN=local
 mkdir -p build evidence
 (cd extract && go build -o ../build/extract .)
-./build/extract /repo > lean/DtailModel/Generated/Facts.lean.new && mv lean/DtailModel/Generated/Facts.lean.new lean/DtailModel/Generated/Facts.lean
+./build/extract "$REPO" > lean/DtailModel/Generated/Facts.lean.new && mv lean/DtailModel/Generated/Facts.lean.new lean/DtailModel/Generated/Facts.lean
 (cd lean && lake build DtailModel dtmodel)
-(cd /repo && go build -o /verif/build/bin/ ./cmd/...)
+(cd "$REPO" && go build -o "$V/build/bin/" ./cmd/...)
 echo setup-ok
